@@ -51,8 +51,12 @@ def fits(x):
     return abs(f.numerator) < 2 ** 31 and f.denominator < 2 ** 31
 
 
-def ulps(x, y, scale):
-    """min(ULP_CAP, ceil(|x-y| / (2^-52 * scale))) in exact arithmetic; non finite -> ULP_CAP"""
+SOLVER_BITS = 40            # solver-clause tokens are measured in units of 2^-40 * scale (range up to 2e-3)
+TOL_SOLVER40 = 2 ** 24      # ~1.5e-5 relative: finite-difference Jacobians carry ~1e-7 noise that the solves amplify
+
+
+def ulps(x, y, scale, bits=52):
+    """min(ULP_CAP, ceil(|x-y| / (2^-bits * scale))) in exact arithmetic; non finite -> ULP_CAP"""
     import math
     try:
         if not (math.isfinite(x) and math.isfinite(y) and math.isfinite(scale)):
@@ -65,7 +69,7 @@ def ulps(x, y, scale):
     s = Fraction(scale)
     if s <= 0:
         return ULP_CAP
-    q = d / (s * Fraction(1, 2 ** 52))
+    q = d / (s * Fraction(1, 2 ** bits))
     c = -((-q.numerator) // q.denominator)
     return int(min(ULP_CAP, c))
 
